@@ -37,7 +37,7 @@ CLAIMS = {
         note="'accurate' (recorded old values are what the state held) is the precondition C19 establishes. Trusted: prelude, StorageTxn contract."),
     'C08': dict(
         text="Proof that LocalServer::{add_version,get_child_version,get_snapshot} implement the sequential Server chain protocol over a ghost {latest, rows} database behind the SQL helper methods: accept iff parent is latest or none exists, reject naming latest and write nothing, return the stored child, NoSuchVersion for an unknown parent. HTTP client (unit httpsrv): 409 is read as ExpectedParentVersion(X-Parent-Version-Id), any other non-error status as Ok(X-Version-Id) with the X-Snapshot-Request urgency, 404 as NoSuchVersion / no snapshot, other error statuses as errors; ids come from the documented headers, bodies only with the documented content type. Object store (unit cloudsrv, one client at a time): CloudServer::add_version rejects a parent that is not `latest` naming the latest and changing nothing, otherwise stores the sealed segment under v-PARENT-VERSION and compare-and-swaps `latest`, deleting the object again when the swap is lost; get_child_version serves only a child that is the latest version or has children itself, with the stored bytes opened under its own id; snapshots are stored under s-VERSION and returned only if they open.",
-        note="LOCAL BACKEND, HTTP CLIENT AND OBJECT STORE (SEQUENTIALLY) ONLY: the object store under concurrent clients is C09 (not applicable), its name/list helpers and cleanup are trusted by contract (hashed), the git backend is out of reach. The SQL helper bodies are trusted by contract (their text is hashed into the evidence: a change makes the check UNDECIDED). Git, object-store and HTTP backends are outside the verifier's reach and not covered."),
+        note="PROVED: local backend over contracted SQL helpers, HTTP client request/response mapping, object store sequentially (its name/list helpers and cleanup trusted by contract, hashed; concurrent clients are C09, not applicable). BOUNDED stand-in (executed, never counted as proved; engine server_conform): the local server including its SQL, and the git-backed server (spawns git; local-only, and two clones sharing a bare remote with handles created up-front or lazily), are run on every call sequence within stated bounds (local: depth 3 from 3 base chains, two handles, 3 payloads incl. empty / non-UTF-8 / 70 kB, + 600 seeded walks of 30 calls; git: depth 2 + seeded walks; thorough: one level deeper, thousands of walks) and each result is checked against the executable protocol contract; a deviation is reported with the failing call sequence (replayable). It found D10 (git: a replica keeps the key of the salt it invented itself), repaired by a fix: commit. NOT covered: the sync server program behind the HTTP client, real object stores, longer sequences, injected faults (C11)."),
     'C11': dict(
         text="Proof that the backend invariant (rows = one parent-linked chain ending at latest, no other row served) holds after EVERY helper call inside LocalServer::add_version, i.e. at every point where a failure or stop can occur between database transactions, and that an Err from any helper returns without further writes. Object store (unit cloudsrv): whatever step of CloudServer::add_version fails or is interrupted (each request may or may not have been carried out), the store is left unchanged, or with only the uploaded-but-uncommitted object, or with the accepted version; such an object is proved not to be a true child (lemma_orphan_not_served), and get_child_version is proved to serve true children only.",
         note="LOCAL BACKEND AND OBJECT STORE ONLY; for the object store the freshness of Uuid::new_v4 (A12) is assumed and the 'every replica can go on synchronizing' composition is not derived; each SQL helper is assumed to be one atomic SQLite transaction with the stated effect (hashed, trusted). Object-store and git backends not covered."),
